@@ -79,7 +79,13 @@ def run(ctx, res):
         cases.append(case(table([["s", "String"], ["u", "String"]], rows[:5]),
                           [["lit", -5], ["lit", 0], ["lit", True], ["lit", False], ["lit", None], ["lit", -2.5],
                            fn("add", ["lit", -5], ["lit", 3]), fn("sub", ["lit", 2], ["lit", -3]),
-                           ["case", [[fn("is_null", s), ["lit", -1]]], ["lit", 1]]]))
+                           ["case", [[fn("is_null", s), ["lit", -1]]], ["lit", 1]],
+                           # negative numbers behind operators (a `-` directly in front of an inline `-1` would read `--1`)
+                           fn("neg", ["lit", -1]), fn("neg", ["lit", -2.5]), fn("neg", fn("neg", ["lit", -3])),
+                           fn("mul", fn("neg", ["lit", -2]), ["lit", 3]), fn("sub", ["lit", -2], fn("neg", ["lit", -3])),
+                           fn("sub", fn("str_len", s), fn("neg", ["lit", -1])), fn("pos", ["lit", -4]),
+                           fn("add", fn("neg", ["lit", -1]), fn("str_len", s)),
+                           ["case", [[fn("greater_than", fn("str_len", s), fn("neg", ["lit", -1])), fn("neg", ["lit", -7])]], ["lit", 0]]]))
     pipeprop.run(ctx, res, "C18", {}, n_quick=0, n_thorough=0, extra_cases=cases, probe_ids=("F13", "F21"),
                  label="literal grid")
     # ---- text level: the literal is rendered as the model says, and the statement keeps its structure
@@ -120,6 +126,19 @@ def run(ctx, res):
                 "what": f"literal {lit!r}: " + ("rendering differs from Model/SqlText.quote" if not ok_render
                                                  else "the statement skeleton changes with the literal"),
                 "found_input": True, "payload": {"case": c, "literal": lit, "query": q, "expected_literal": quote(lit)}})
+    # numbers: no comment syntax may appear in the statement, whatever the signs
+    if not ctx.replay:
+        cnum = case(table([["s", "String"]], [("a",), ("bb",), (None,)]),
+                    [fn("neg", ["lit", -1]), fn("sub", fn("str_len", s), fn("neg", ["lit", -1])), fn("neg", fn("neg", ["lit", -3])),
+                     fn("neg", ["lit", -2.5]), fn("mul", ["lit", -1], fn("neg", ["lit", -2]))])
+        try:
+            qn = query_of(cnum)
+            if "--" in qn or "/*" in qn:
+                res.violations.append({"what": "a negative number behind a unary minus is rendered as comment syntax (`--`)",
+                                       "found_input": True, "payload": {"case": cnum, "query": qn}})
+        except Exception as ex:  # noqa: BLE001
+            res.violations.append({"what": f"build_query raised {type(ex).__name__} for negative numeric literals",
+                                   "found_input": True, "payload": {"case": cnum}})
     res.coverage["text_checks"] = {"literals": checked, "alphabet": ATOMS}
     res.coverage["evaluations"] = res.coverage.get("evaluations", 0) + checked
     res.coverage["partial"] = ["SQLAlchemy's renderer is tied by text comparison, not proved",
